@@ -119,3 +119,26 @@ PROPS["C13"] = dict(
                  "listing sizes and counters below 2^64 for the plain-equality corollaries",
                  "partial: reverse and offset-based walks, and the Writers analogue of topics_listing_only_owner, are covered by the correspondence stream only"],
 )
+
+PNFT_TRUSTED = [
+    "hand-written Lean model Panacea/Model/Pnft.lean of x/pnft and of the cosmos-sdk v0.47.12 x/nft keeper's key layout (five prefixes, delimiter-based keys), tied by the pnft stream: real msg server + query server on a real app, raw store dumps compared key for key",
+    "protobuf/Any encoding of class and token metadata not modelled (values compared after decoding with the real codecs)",
+    "bech32 is a parameter (AddrCodec)",
+]
+PNFT_STREAM = [dict(name="pnft", quick=150, thorough=3000, thorough_seeds=3)]
+PROPS["C06"] = dict(
+    module="Panacea.Properties.C06",
+    obligations=["Panacea.C06.denom_ops_require_current_owner", "Panacea.C06.token_ops_require_current_owner",
+                 "Panacea.C06.denom_owner_changes_only_by_transfer", "Panacea.C06.former_owner_rejected",
+                 "Panacea.C06.refused_is_noop"],
+    streams=PNFT_STREAM, trusted=PNFT_TRUSTED,
+    assumptions=["message level: that the actor named in the message signed the transaction (or delegated via authz) is the transaction layer (C15 / Tx model and tx stream)"],
+)
+PROPS["C12"] = dict(
+    module="Panacea.Properties.C12",
+    obligations=["Panacea.C12.admitted_ids_have_no_nul", "Panacea.C12.pairs_do_not_alias", "Panacea.C12.mint_existing_refused",
+                 "Panacea.C12.token_metadata_immutable", "Panacea.C12.denomsByOwner_exact", "Panacea.C12.delete_nonempty_refused"],
+    streams=PNFT_STREAM, trusted=PNFT_TRUSTED,
+    assumptions=["partial: 'every existing token belongs to an existing denom' and exactness of the PNFTs / PNFTsByDenomOwner listings are checked by the correspondence stream and the mon.c12 monitor after every history, not yet by a theorem (needs the invariant supply = #tokens)"],
+    note="theorems are about the code after fixes 38809bd7 (F7), 463feecd (F8), 74c2443b (F9)",
+)
